@@ -19,13 +19,18 @@ def fixed_scenarios():
            ("if", True, ("bin", var("x"), "==", Sx("y")), [("break",)], None), ("assign", "g", (var("x"), []))], None),
           ("capture", "cap", [("text", "in"), ("out", (var("boom"), []))]), ("text", "never")]
     t3 = [("cycle", None, [Sx("c1"), Sx("c2"), Sx("c3")]), ("include", Sx("p"), []), ("render", Sx("q"), None, [("v", var("a"))]), ("include", Sx("bad"), []), ("text", "never")]
+    # every block that renders its body into a buffer of its own, failing after the body has written something on
+    # some data and succeeding on other data, with the result made visible
+    t5 = [("capture", "cap", [("text", "in"), ("out", (var("boom"), []))])] + read("cap") + \
+         [("ifchanged", [("text", "ic"), ("out", (var("boom"), []))]), ("text", "|"),
+          ("for", "x", ARR, None, None, False, [("capture", "c2", [("out", (var("x"), [])), ("out", (var("boom"), []))])] + read("c2"), None)]
     t4 = read("g") + read("cap") + read("n") + [("cycle", None, [Sx("c1"), Sx("c2"), Sx("c3")]), ("ifchanged", [("text", "same")]), ("inc", "n")]
     partials = [("p", [("text", "<p"), ("inc", "n"), ("cycle", None, [Sx("c1"), Sx("c2"), Sx("c3")]), ("assign", "g", (Sx("pG"), [])), ("text", ">")]),
                 ("q", [("text", "<q"), ("out", (var("v"), [])), ("break",), ("text", "never>")]), ("bad", BROKEN)]
     datas = [[["a", ["s", "A1"]], ["arr", ["a", [["s", "x"], ["s", "y"], ["s", "z"]]]]],
              [["a", ["s", "A2"]], ["arr", ["a", [["s", "y"]]]], ["boom", ["s", "B"]]],
              [["arr", ["a", []]]]]
-    S.append({"partials": partials, "templates": [t1, t2, t3, t4], "datas": datas})
+    S.append({"partials": partials, "templates": [t1, t2, t3, t4, t5], "datas": datas})
     # a scenario whose partials are all fine, used more than once within a render
     partials2 = [("p", [("text", "("), ("out", (var("k"), [])), ("inc", "n"), ("text", ")")]), ("unused_bad", BROKEN)]
     u1 = [("for", "x", ARR, None, None, False, [("include", Sx("p"), [("k", var("x"))]), ("render", Sx("p"), None, [("k", var("x"))])], None), ("include", var("pn"), [("k", Sx("dyn"))])]
